@@ -16,7 +16,7 @@ func prop(id string, rules []string, explanation, notDecided string, extra ...st
 // frozen minimum obligation counts per rule (vacuity guard): measured on the tree the rules were
 // confirmed against by hand, with slack for harmless restructuring.
 var frozenMin = map[string]int{
-	"P-API-FORMS": 300, "P-ATOMIC-WRITE": 9, "P-CLONE": 2, "P-COMMENT": 4, "P-CTOR": 9, "P-DICT": 7, "P-ERR-PROP": 40,
+	"P-API-FORMS": 300, "P-ATOMIC-WRITE": 9, "P-BOUNDS": 10, "P-CLONE": 2, "P-COMMENT": 4, "P-CTOR": 9, "P-DICT": 7, "P-ERR-PROP": 40,
 	"P-FILERENDER-ORDER": 4, "P-FORMAT-GATE": 10, "P-FRAGMENT": 7, "P-GROUPRENDER": 11, "P-IMPORTBLOCK": 5, "P-ISNULL": 13,
 	"P-LITCTOR": 10, "P-LOCALDOT": 0, "P-MAPRANGE": 5, "P-NILGUARD": 10, "P-REGISTER": 10, "P-RENDERITEMS": 5, "P-STMTRENDER": 2,
 	"P-TAG": 6, "P-TOKEN": 5, "P-VALIDALIAS": 1, "T-CONSTRUCTS": 280, "T-GENNAMES": 4, "T-KEYWORDS": 70, "T-LITFMT": 36,
@@ -29,8 +29,8 @@ func init() {
 	prop("C01", []string{"T-CONSTRUCTS", "T-KEYWORDS", "P-RENDERITEMS", "P-STMTRENDER", "P-GROUPRENDER", "P-TOKEN", "P-ISNULL", "T-LITFMT", "P-LITCTOR"},
 		"Necessary conditions of faithful rendering, on every path: (a) every construct of the generated API emits exactly the delimiter / separator / keyword tokens Go's grammar has for it (independent grammar table, go/scanner, go/token, types.Universe; X and XFunc twins identical); (b) the generic renderer writes open, items, separators, trailing newline, close in that order and treats every list position after the first identically — there is no edge around a separator or an item render other than {nil/null item, first item, empty separator, not multi}, so arity 4, 40 and 4,000 take the same paths; (c) keyword / identifier / package tokens write their text, `default` always gets its colon, a Block after Case / Default drops its braces exactly then; (d) literal tokens are produced only by Go-syntax formatters applied to the unmodified value (see C11 / C12).",
 		"that arbitrary compositions re-parse to the original tree (depends on go/format and go/parser over all programs); literal values (C11/C12)")
-	prop("C02", []string{"P-FORMAT-GATE", "P-ATOMIC-WRITE", "P-ERR-PROP", "W-PANICS", "T-TOKCONTENT", "P-NILGUARD"},
-		"No success path to the caller's writer avoids format.Source (File.Render: unless NoFormat); the formatter runs once on the private buffer and both modes draw from the same buffer; a formatter error is returned, never written as if valid; the only explicit panic reachable from Render / RenderWithFile / Save is the documented one for unsupported Lit types; token type assertions and item dereferences in the renderer cannot fail. Validity of the bytes then follows from format.Source's contract (trusted).",
+	prop("C02", []string{"P-FORMAT-GATE", "P-ATOMIC-WRITE", "P-ERR-PROP", "W-PANICS", "T-TOKCONTENT", "P-NILGUARD", "P-BOUNDS"},
+		"No success path to the caller's writer avoids format.Source (File.Render: unless NoFormat); the formatter runs once on the private buffer and both modes draw from the same buffer; a formatter error is returned, never written as if valid; the only explicit panic reachable from Render / RenderWithFile / Save is the documented one for unsupported Lit types; token type assertions and item dereferences in the renderer cannot fail; every index and slice expression of the package is in range on every path (comparisons made before it, documented ranges of strings.Index* / utf8.DecodeRune*, lengths implied by HasPrefix / Contains / Quote, sort callbacks). Validity of the bytes then follows from format.Source's contract (trusted).",
 		"that every syntactically invalid composition makes the formatter fail (a property of go/parser)")
 	prop("C03", []string{"P-REGISTER", "P-VALIDALIAS", "P-TOKEN", "P-IMPORTBLOCK", "W-REGISTER-CALLERS", "W-IMPORTS-WRITERS", "W-FILE-ARGS", "T-REGEX", "T-RESERVED"},
 		"Import bookkeeping decided on every path of the registration function (path enumeration, loop unrolled twice): no alias ⇒ the stored name is the raw hint or standard-library name; guessed or modified names ⇒ alias; checked = stored = returned; first registration wins; the collision test sees every entry; the qualifier written by a package token is the registered name; the import line prints that same entry's name and path, with an alias iff flagged.",
